@@ -149,7 +149,7 @@ seq_t dtw_distance(seq_t *s1, idx_t l1,
         dtw[j] = INFINITY;
     }
     // Deal with psi-relaxation in first row
-    for (i=0; i<settings->psi_2b + 1; i++) {
+    for (i=0; i<MIN(settings->psi_2b + 1, length); i++) {
         dtw[i] = 0;
     }
     idx_t skip = 0;
@@ -391,7 +391,7 @@ seq_t dtw_distance_ndim(seq_t *s1, idx_t l1,
         dtw[j] = INFINITY;
     }
     // Deal with psi-relaxation in first row
-    for (i=0; i<settings->psi_2b + 1; i++) {
+    for (i=0; i<MIN(settings->psi_2b + 1, length); i++) {
         dtw[i] = 0;
     }
     idx_t skip = 0;
@@ -625,7 +625,7 @@ seq_t dtw_distance_euclidean(seq_t *s1, idx_t l1,
         dtw[j] = INFINITY;
     }
     // Deal with psi-relaxation in first row
-    for (i=0; i<settings->psi_2b + 1; i++) {
+    for (i=0; i<MIN(settings->psi_2b + 1, length); i++) {
         dtw[i] = 0;
     }
     idx_t skip = 0;
@@ -857,7 +857,7 @@ seq_t dtw_distance_ndim_euclidean(seq_t *s1, idx_t l1,
         dtw[j] = INFINITY;
     }
     // Deal with psi-relaxation in first row
-    for (i=0; i<settings->psi_2b + 1; i++) {
+    for (i=0; i<MIN(settings->psi_2b + 1, length); i++) {
         dtw[i] = 0;
     }
     idx_t skip = 0;
